@@ -296,7 +296,10 @@ def targets(ctx):
         for obs in ("to_dict_defaults", "to_pydict_defaults"):
             yield {"msg": "Rec", "tree": {"i32": 1}, "source": "construct", "observers": [obs], "copies": [], "mut": 0}
 
+    from . import _seq
+
     return [
         Target("observer_and_copy_histories", ev, strategy=strat(), quick=400, thorough=6000, time_quick=80),
         Target("known_finding_probe", ev, cases=probe_cases, exhaustive=True, shard_cases=False),
+        _seq.target("C14"),
     ]
